@@ -525,17 +525,16 @@ Theorem validate_signature_total s : ok_or_err (validate_signature s).
 Proof. unfold validate_signature. destruct (255 <? len s); [exact I|]. apply vtop_loop_total. unfold len. lia. Qed.
 
 (** ** The two functions agree *)
-Theorem parser_validator_agree s : s <> [] ->
+Theorem parser_validator_agree s :
   is_ok (parse_description s) = is_ok (validate_signature s).
 Proof.
-  intros Hne.
   destruct (parse_description s) as [ts| | | |] eqn:Ep; cbn [is_ok].
-  - apply parse_description_spec in Ep. destruct Ep as [_ Hs].
+  - apply parse_description_spec in Ep.
     assert (Hv : validate_signature s = Ok tt) by (apply validate_signature_spec; now exists ts).
     now rewrite Hv.
   - destruct (validate_signature s) as [[]| | | |] eqn:Ev; cbn [is_ok]; try reflexivity.
     apply validate_signature_spec in Ev. destruct Ev as [ts Hs].
-    assert (Hp : parse_description s = Ok ts) by (apply parse_description_spec; split; assumption).
+    assert (Hp : parse_description s = Ok ts) by (now apply parse_description_spec).
     congruence.
   - pose proof (parse_description_total s) as H. now rewrite Ep in H.
   - pose proof (parse_description_total s) as H. now rewrite Ep in H.
